@@ -340,7 +340,9 @@ def rule_takeover(ctx, rule):
         for t in g.stmt_nodes():
             if t.kind != "test":
                 continue
-            e = resolve(t.expr, {k: v for k, v in defs.items() if "monotonic" not in norm(v)}, depth=2)
+            # resolve named intermediates (`lock_age = time.monotonic() - t0`, `is_stale = lock_age > grace`) but keep the
+            # observation-start variable itself, whose definition is the bare clock reading
+            e = resolve(t.expr, {k: v for k, v in defs.items() if norm(v) != "time.monotonic()"}, depth=3)
             pol = edges_where(e, stale_atom)
             for k, m in t.succ:
                 if pol.get(k) is True:
